@@ -156,3 +156,51 @@ def pivot_index(A):
         else:
             out[n] = 2
     return out
+
+
+def branch_surfaces(A):
+    """Which exact-degeneracy surfaces of the eigen-routine's branch variables an input sits on.  A float64 numpy replica
+    of the routine's first stage (scaling by the infinity norm, mean, deviator, c2, c3) with the same operation order, plus
+    purely structural predicates; used for the input-class keys of open findings and for the coverage census."""
+    A = onp.asarray(A, dtype=float)
+    cmax = onp.abs(A).sum(axis=2).max(axis=1)
+    inv = onp.where(cmax > 0, 1.0 / onp.where(cmax > 0, cmax, 1.0), 1.0)
+    S = inv[:, None, None] * A
+    cxx, cyy, czz = S[:, 0, 0].copy(), S[:, 1, 1].copy(), S[:, 2, 2].copy()
+    cxy = 0.5 * (S[:, 0, 1] + S[:, 1, 0])
+    cyz = 0.5 * (S[:, 1, 2] + S[:, 2, 1])
+    czx = 0.5 * (S[:, 2, 0] + S[:, 0, 2])
+    c1 = (cxx + cyy + czz) / 3.0
+    cxx, cyy, czz = cxx - c1, cyy - c1, czz - c1
+    c2 = cxx * cyy + cyy * czz + czz * cxx - cxy * cxy - cyz * cyz - czx * czx
+    c3 = cxx * cyz * cyz + cyy * czx * czx - 2.0 * cxy * cyz * czx + czz * (cxy * cxy - cxx * cyy)
+    off_nonzero = (cxy != 0) | (cyz != 0) | (czx != 0)
+    dev_diag_zero = (cxx == 0) & (cyy == 0) & (czz == 0)
+    tie01 = (cxx == cyy) & (onp.abs(czx) == onp.abs(cyz))
+    tie12 = (cyy == czz) & (onp.abs(cxy) == onp.abs(czx))
+    tie02 = (cxx == czz) & (onp.abs(cxy) == onp.abs(cyz))
+    circ = (cxx == cyy) & (cyy == czz) & (onp.abs(cxy) == onp.abs(cyz)) & (onp.abs(cyz) == onp.abs(czx)) & (cxy != 0)
+    # purely structural (exact in the INPUT): equal diagonal entries, i.e. a deviator with zero diagonal in exact arithmetic,
+    # whose determinant 2 cxy cyz czx vanishes (at least one off-diagonal exactly zero) while it is not the zero matrix
+    o01 = (A[:, 0, 1] + A[:, 1, 0]) != 0
+    o12 = (A[:, 1, 2] + A[:, 2, 1]) != 0
+    o02 = (A[:, 0, 2] + A[:, 2, 0]) != 0
+    eqdiag = (A[:, 0, 0] == A[:, 1, 1]) & (A[:, 1, 1] == A[:, 2, 2])
+    nz = o01.astype(int) + o12.astype(int) + o02.astype(int)
+    shear_plus_iso = eqdiag & (nz >= 1) & (nz <= 2)
+    return {"c3_zero": (c3 == 0) & (c2 < 0), "c2_zero": ~(c2 < (c1 * c1) * (-1.0e-30)), "trace_zero": (c1 == 0) & (cmax > 0),
+            "dev_diag_zero": shear_plus_iso, "dev_diag_zero_in_float": dev_diag_zero & off_nonzero,
+            "tie01": tie01, "tie12": tie12, "tie02": tie02,
+            "pivot_tie": (tie01 | tie12 | tie02) & ((c2 < 0)), "circulant": circ,
+            "n_zero_offdiag": (cxy == 0).astype(int) + (cyz == 0).astype(int) + (czx == 0).astype(int)}
+
+
+def exact_det_dev_zero(A):
+    """det(dev A) == 0 in exact rational arithmetic (float entries are exact rationals)."""
+    out = onp.zeros(len(A), dtype=bool)
+    for n, M in enumerate(onp.asarray(A, dtype=float)):
+        F = [[(Fraction(float(M[i, j])) + Fraction(float(M[j, i]))) / 2 for j in range(3)] for i in range(3)]
+        m = (F[0][0] + F[1][1] + F[2][2]) / 3
+        D = [[F[i][j] - (m if i == j else 0) for j in range(3)] for i in range(3)]
+        out[n] = det3_fraction(D) == 0
+    return out
